@@ -39,7 +39,7 @@ Avail == caps[LastB] - 24 - 8 * (Last - LastB) - Used(LastB + 1, Last)
 
 Snapshot == [prev |-> prev, ents |-> ents, synced |-> synced, bnds |-> bnds]
 Done(o, r) == /\ op' = o /\ res' = r /\ pre' = Snapshot /\ nops' = nops + 1 /\ hist' = Append(hist, o)
-KillViews == [k \in 1..Len(views) |-> [views[k] EXCEPT !.live = FALSE]]
+KillViews == << >>    \* views are invalid after RemoveLTE / RemoveGTE (documented): no expectation about them
 
 Init ==
     /\ prev = 0 /\ ents = << >> /\ bnds = {0} /\ caps = (0 :> SegSize0) /\ synced = 0 /\ opt = SegSize0
@@ -93,17 +93,17 @@ DoRemoveLTE(i) ==
 
 \* DoRemoveGTE(i): commits, removes whole segments from the back, lowers the entry count of the segment holding i
 DoRemoveGTE(i) ==
-    /\ IF i > Last
-       THEN /\ synced' = Last /\ UNCHANGED <<prev, ents, bnds, caps>>
-       ELSE IF i <= prev
+    /\ IF i <= prev
        THEN \* every segment goes; a fresh one is created at i-1 (at 0 for i = 0)
             LET np == IF i > 0 THEN i - 1 ELSE 0 IN
             /\ prev' = np /\ ents' = << >> /\ bnds' = {np} /\ caps' = (np :> opt) /\ synced' = np
-       ELSE LET keep == {b \in bnds : b < i - 1}
+       ELSE \* segments starting at or after i-1 are removed (an empty trailing segment too), except the first one
+            LET keep == {b \in bnds : b < i - 1}
                 nb   == IF keep = {} THEN {prev} ELSE keep
-            IN /\ ents' = SubSeq(ents, 1, i - 1 - prev)
+                nl   == Min(i - 1, Last)
+            IN /\ ents' = SubSeq(ents, 1, nl - prev)
                /\ bnds' = nb /\ caps' = [b \in nb |-> caps[b]]
-               /\ synced' = i - 1 /\ UNCHANGED prev
+               /\ synced' = nl /\ UNCHANGED prev
     /\ views' = KillViews
     /\ UNCHANGED <<opt, nextId>>
     /\ Done([op |-> "removeGTE", i |-> i], "ok")
@@ -166,17 +166,17 @@ Inv_Fits == Avail >= -8   \* data never overlaps the offset table (the slot of t
 (* C14: what reopening after a crash inside the last operation may yield   *)
 (* img = [opened, prev, last, ents = <<[i, id, size, ok]>>]                *)
 EntryKnown(e, sa, sb) ==
-    \/ (e.i > sa.prev /\ e.i <= sa.prev + Len(sa.ents) /\ sa.ents[e.i - sa.prev].id = e.id /\ sa.ents[e.i - sa.prev].size = e.size)
-    \/ (e.i > sb.prev /\ e.i <= sb.prev + Len(sb.ents) /\ sb.ents[e.i - sb.prev].id = e.id /\ sb.ents[e.i - sb.prev].size = e.size)
+    \/ (e.i > sa.prev /\ e.i <= sa.prev + Len(sa.ents) /\ (e.size = 0 \/ sa.ents[e.i - sa.prev].id = e.id) /\ sa.ents[e.i - sa.prev].size = e.size)
+    \/ (e.i > sb.prev /\ e.i <= sb.prev + Len(sb.ents) /\ (e.size = 0 \/ sb.ents[e.i - sb.prev].id = e.id) /\ sb.ents[e.i - sb.prev].size = e.size)
 RecoverOK(img, o, sa, sb) ==
     /\ img.opened
     /\ \A k \in 1..Len(img.ents) : img.ents[k].ok /\ img.ents[k].i = img.prev + k /\ EntryKnown(img.ents[k], sa, sb)
     /\ img.last = img.prev + Len(img.ents)
-    \* everything covered by the last completed commit survives, unless this operation removes it
-    /\ (o.op \notin {"reset"}) =>
-         LET lastB == sb.prev + Len(sb.ents)
-             must == IF o.op = "removeGTE" THEN Min(sa.synced, lastB) ELSE sa.synced
-         IN img.last >= must \/ img.prev >= must
+    \* every entry covered by the last completed commit survives, unless this operation removes it
+    \* (from the back: removeGTE / reset; from the front: removeLTE)
+    /\ LET lastB == sb.prev + Len(sb.ents)
+           must  == IF o.op \in {"removeGTE", "reset"} THEN Min(sa.synced, lastB) ELSE sa.synced
+       IN \A i \in (Max(sa.prev, sb.prev) + 1)..must : i > img.prev /\ i <= img.last
     \* nothing that was never appended
     /\ img.last <= Max(sa.prev + Len(sa.ents), sb.prev + Len(sb.ents))
 =============================================================================
